@@ -45,6 +45,9 @@ pub enum Mode {
     EioGo,
     /// as EioGo with ENOSPC
     EnospcGo,
+    /// as EnospcGo, but call k (a write) first stores a prefix of its buffer (chosen by `cut`) and
+    /// returns the short count; the next mutating call - the rest of the same write_all - gets ENOSPC
+    ShortGo,
     /// process crash before call k, then a SECOND process crash in the middle of the recovery (before
     /// one of the mutating calls the reopen issues, chosen by `cut`), then a recovery that completes
     A2,
@@ -62,6 +65,7 @@ impl Mode {
             Mode::Enospc => "enospc",
             Mode::EioGo => "eio-go",
             Mode::EnospcGo => "enospc-go",
+            Mode::ShortGo => "short-go",
             Mode::A2 => "a2",
             Mode::Lose2 => "lose2",
         }
@@ -74,6 +78,7 @@ impl Mode {
             "enospc" => Mode::Enospc,
             "eio-go" => Mode::EioGo,
             "enospc-go" => Mode::EnospcGo,
+            "short-go" => Mode::ShortGo,
             "a2" => Mode::A2,
             "lose2" => Mode::Lose2,
             _ => Mode::A,
@@ -110,8 +115,8 @@ pub fn child_run(args: &[String]) -> i32 {
     let _ = std::fs::create_dir_all(&root);
     shim::CRASH_AT.store(u64::MAX, std::sync::atomic::Ordering::SeqCst);
     shim::FAIL_AT.store(u64::MAX, std::sync::atomic::Ordering::SeqCst);
-    let fault = matches!(mode, "eio" | "enospc" | "eio-go" | "enospc-go");
-    let go = matches!(mode, "eio-go" | "enospc-go");
+    let fault = matches!(mode, "eio" | "enospc" | "eio-go" | "enospc-go" | "short-go");
+    let go = matches!(mode, "eio-go" | "enospc-go" | "short-go");
     let mut surfaced = false;
     match mode {
         "count" => {}
@@ -125,7 +130,9 @@ pub fn child_run(args: &[String]) -> i32 {
             shim::MODE_B.store(2, std::sync::atomic::Ordering::SeqCst);
             shim::CUT_SEL.store(cut, std::sync::atomic::Ordering::SeqCst);
         }
-        "eio" | "enospc" | "eio-go" | "enospc-go" => {
+        "eio" | "enospc" | "eio-go" | "enospc-go" | "short-go" => {
+            shim::FAIL_SHORT.store(mode == "short-go", std::sync::atomic::Ordering::SeqCst);
+            shim::CUT_SEL.store(cut, std::sync::atomic::Ordering::SeqCst);
             shim::FAIL_AT.store(k, std::sync::atomic::Ordering::SeqCst);
             shim::FAIL_ERRNO.store(if mode.starts_with("eio") { libc::EIO } else { libc::ENOSPC }, std::sync::atomic::Ordering::SeqCst);
         }
@@ -622,8 +629,8 @@ impl CrashEnum {
             .status();
         let code = st.ok().and_then(|s| s.code());
         let (acked, inflight, other) = acks_of(&root);
-        let fault = matches!(case.mode, Mode::Eio | Mode::Enospc | Mode::EioGo | Mode::EnospcGo);
-        let go = matches!(case.mode, Mode::EioGo | Mode::EnospcGo);
+        let fault = matches!(case.mode, Mode::Eio | Mode::Enospc | Mode::EioGo | Mode::EnospcGo | Mode::ShortGo);
+        let go = matches!(case.mode, Mode::EioGo | Mode::EnospcGo | Mode::ShortGo);
         match code {
             Some(99) => {}
             Some(0) => {
@@ -880,7 +887,8 @@ impl Part for CrashEnum {
                     modes.push(Mode::EioGo);
                 }
                 if (r >> 16) % 4 == 3 || (thorough && (r >> 16) % 4 == 2) {
-                    modes.push(Mode::EnospcGo);
+                    // a full disk shows as a short write about as often as an outright ENOSPC
+                    modes.push(if trace[*k].kind == "write" && (r >> 32) % 2 == 0 { Mode::ShortGo } else { Mode::EnospcGo });
                 }
                 for mode in modes {
                     let case = CrashCase { history: history.clone(), k: *k as u64, mode, cut: vcore::mix(seed ^ (*k as u64) << 8 ^ hi) };
